@@ -192,7 +192,10 @@ impl Directive {
                     .name("fields")
                     .map(|c| {
                         FIELD_FILTER_RE
-                            .find_iter(c.as_str())
+                            .captures_iter(c.as_str())
+                            // the first group is the field filter itself, without
+                            // the trailing comma that separates it from the next
+                            .filter_map(|c| c.get(1))
                             .map(|c| field::Match::parse(c.as_str(), regex))
                             .collect::<Result<Vec<_>, _>>()
                     })
